@@ -2,6 +2,8 @@ package dirwalk
 
 import (
 	"fmt"
+	"os"
+	"path/filepath"
 	"testing"
 
 	"github.com/stretchr/testify/assert"
@@ -46,4 +48,25 @@ func TestGlobExpandBadPatternIsLiteral(t *testing.T) {
 	}
 
 	assert.Equal(t, []string{"bad[pattern"}, items)
+}
+
+func TestGlobExpandRecursiveSymlinkRoot(t *testing.T) {
+	dir := t.TempDir()
+	assert.NoError(t, os.Mkdir(filepath.Join(dir, "real"), 0755))
+	assert.NoError(t, os.WriteFile(filepath.Join(dir, "real", "a.log"), []byte("a\n"), 0644))
+	link := filepath.Join(dir, "link")
+	if err := os.Symlink("real", link); err != nil {
+		t.Skip("symlinks not supported")
+	}
+
+	collect := func(root string) []string {
+		items := make([]string, 0)
+		for ele := range GlobExpand([]string{root}, true) {
+			items = append(items, ele)
+		}
+		return items
+	}
+
+	assert.Equal(t, []string{filepath.Join(link, "a.log")}, collect(link))
+	assert.Equal(t, []string{filepath.Join(dir, "real", "a.log")}, collect(filepath.Join(dir, "real")))
 }
